@@ -138,7 +138,16 @@ def run(ck):
                     d1 = go(tools.decode_dpt_payload(DecodeDptPayloadInput(payload=raw, value_type=vt)))
                 except ConversionError:
                     continue
-                except Exception as exn:  # noqa: BLE001 - CouldNotParseTelegram for a payload of the wrong length is not in the plan (declared shape only)
+                except Exception as exn:  # noqa: BLE001
+                    from xknx.exceptions import CouldNotParseTelegram  # noqa: PLC0415
+
+                    if isinstance(exn, CouldNotParseTelegram):      # a payload of the wrong length is not in the plan (declared shape only)
+                        continue
+                    # the datapoint class itself accepts this payload (the plan holds accepted payloads only): the tool must decode it
+                    r = {"t": "inv", "cls": cls.__name__, "out": "raised:" + type(exn).__name__, "same": 0, "json": 1}
+                    k = json.dumps(r, sort_keys=True)
+                    agg.setdefault(k, [r, 0, f"{cls.__name__} ({vt}) payload {raw if isinstance(raw, int) else bytes(raw).hex()} -> decode_dpt_payload raised {type(exn).__name__}: {str(exn)[:120]}"])
+                    agg[k][1] += 1
                     continue
                 n += 1
                 ok, why = jsonable(d1)
